@@ -60,6 +60,10 @@ type ReplayFile struct {
 	Events    []string        `json:"first_events"`
 	Trace     []string        `json:"trace"`
 	Shrunk    string          `json:"minimisation"`
+	// Build names the instrumentation the run was found under: "" = sparse (yields at
+	// synchronisation operations and loop heads), "dense" = a yield before every statement of
+	// the session-level files too. A schedule only replays under the build that produced it.
+	Build string `json:"build,omitempty"`
 }
 
 type violRec struct {
@@ -68,6 +72,7 @@ type violRec struct {
 	Sig    string `json:"sig"`
 	Detail string `json:"detail"`
 	Replay string `json:"replay"`
+	Build  string `json:"build,omitempty"`
 }
 
 type knownRec struct {
@@ -427,6 +432,9 @@ func workerSearch(t *testing.T, def *PropDef) {
 			}
 			reported[key] = true
 			rf := minimise(t, def, tier, seed, run, pj, ro.Tape, v)
+			if os.Getenv("VERIF_DENSE_BUILD") != "" {
+				rf.Build = "dense"
+			}
 			path := ""
 			if replayDir != "" {
 				path = filepath.Join(replayDir, fmt.Sprintf("%s-%d-%d-%s.json", def.ID, seed, run, sanitize(v.Rule)))
@@ -435,7 +443,7 @@ func workerSearch(t *testing.T, def *PropDef) {
 					out.Infra = append(out.Infra, err.Error())
 				}
 			}
-			out.Violations = append(out.Violations, violRec{Run: run, Rule: rf.Rule, Sig: rf.Sig, Detail: rf.Detail, Replay: path})
+			out.Violations = append(out.Violations, violRec{Run: run, Rule: rf.Rule, Sig: rf.Sig, Detail: rf.Detail, Replay: path, Build: rf.Build})
 		}
 		if len(out.Infra) > 0 || len(out.Nondet) > 0 {
 			break
